@@ -224,7 +224,11 @@ impl SegmentedLog {
         if root_dir_fsync {
             // To uphold the guarantees provided by this function we should fsync the directory
             // after a new segment file is created.
+            #[cfg(feature = "verif")]
+            crate::verif::io::before_dir(crate::verif::io::Kind::DirSync)?;
             self.root_dir_fd.sync_all()?;
+            #[cfg(feature = "verif")]
+            crate::verif::io::after();
         }
 
         Ok(record_id)
@@ -237,10 +241,14 @@ impl SegmentedLog {
         let new_segment_id = self.gen_segment_id();
         let filename = segment_filename::format(&self.filename_prefix, new_segment_id);
         let path = self.root_dir_path.join(filename);
+        #[cfg(feature = "verif")]
+        crate::verif::io::before_path(&path, crate::verif::io::Kind::Create)?;
         let file = OpenOptions::new()
             .create_new(true)
             .append(true)
             .open(&path)?;
+        #[cfg(feature = "verif")]
+        crate::verif::io::after();
         let new_segment = Segment {
             id: new_segment_id,
             min,
@@ -309,7 +317,14 @@ impl SegmentedLog {
 
             // Remove the segment file from the file system.
             let filename = segment_filename::format(&self.filename_prefix, oldest_segment.id);
+            #[cfg(feature = "verif")]
+            crate::verif::io::before_path(
+                &self.root_dir_path.join(&filename),
+                crate::verif::io::Kind::Unlink,
+            )?;
             fs::remove_file(self.root_dir_path.join(filename))?;
+            #[cfg(feature = "verif")]
+            crate::verif::io::after();
 
             // Remove the segment from the in-memory list preserving the order.
             self.segments.remove(0);
@@ -360,10 +375,21 @@ impl SegmentedLog {
         while self.segments.len() > seg_index + 1 {
             let filename =
                 segment_filename::format(&self.filename_prefix, self.segments.last().unwrap().id);
+            #[cfg(feature = "verif")]
+            crate::verif::io::before_path(
+                &self.root_dir_path.join(&filename),
+                crate::verif::io::Kind::Unlink,
+            )?;
             fs::remove_file(self.root_dir_path.join(filename))?;
+            #[cfg(feature = "verif")]
+            crate::verif::io::after();
             self.segments.pop();
         }
+        #[cfg(feature = "verif")]
+        crate::verif::io::before_dir(crate::verif::io::Kind::DirSync)?;
         self.root_dir_fd.sync_data()?;
+        #[cfg(feature = "verif")]
+        crate::verif::io::after();
 
         if let Some(head_segment_writer) = self.head_segment_writer.take().take() {
             let file = head_segment_writer.into_inner();
@@ -390,10 +416,19 @@ impl SegmentedLog {
         let _ = self.head_segment_writer.take();
 
         for segment in &self.segments {
+            #[cfg(feature = "verif")]
+            crate::verif::io::before_path(&segment.path, crate::verif::io::Kind::Unlink)?;
             fs::remove_file(&segment.path)?;
+            #[cfg(feature = "verif")]
+            crate::verif::io::after();
         }
         self.segments.clear();
         Ok(())
+    }
+
+    #[cfg(feature = "verif")]
+    pub fn verif_set_max_segment_size(&mut self, max_segment_size: u64) {
+        self.max_segment_size = max_segment_size;
     }
 
     /// Get the live range.
@@ -591,7 +626,11 @@ impl Recovery {
         }
 
         for segment in nonlive_segments {
+            #[cfg(feature = "verif")]
+            crate::verif::io::before_path(&segment.path, crate::verif::io::Kind::Unlink)?;
             fs::remove_file(segment.path)?;
+            #[cfg(feature = "verif")]
+            crate::verif::io::after();
         }
         Ok(live_segments)
     }
@@ -633,8 +672,16 @@ fn truncate_head_segment(
     };
 
     let mut file = OpenOptions::new().append(true).write(true).open(path)?;
+    #[cfg(feature = "verif")]
+    crate::verif::io::before_path(path, crate::verif::io::Kind::SetLen(end))?;
     file.set_len(end)?;
+    #[cfg(feature = "verif")]
+    crate::verif::io::after();
+    #[cfg(feature = "verif")]
+    crate::verif::io::before_path(path, crate::verif::io::Kind::FsyncData)?;
     file.sync_data()?;
+    #[cfg(feature = "verif")]
+    crate::verif::io::after();
     file.seek(SeekFrom::Start(end))?;
 
     Ok(SegmentFileWriter::new(file, end))
